@@ -31,6 +31,8 @@ THEOREMS = [
     "TornadoModel.C01.reject_is_final",
     "TornadoModel.C01.reject400_closed",
     "TornadoModel.C01.closeSilent_closed",
+    "TornadoModel.C01.never_uncaught",
+    "TornadoModel.C01.never_uncaught_eof",
 ]
 TRUSTED = [
     "CPython `re` for _ABNF.request_line / field_value / token / host, r'\\r?\\n\\r?\\n', r',\\s*', r'\\r?\\n$' "
@@ -56,20 +58,20 @@ RULE = ("grammar-generated pipelines of 1-4 requests (valid and near-valid start
 EXHAUSTIVE = {"quick": False, "thorough": False}
 CLAUSES = {
     "split into TCP segments in any way": "feed_append + segmentation_independent (machine level) ; tie: every stream x several segmentations vs Spec.readAll",
-    "exactly the sequence of requests a strict reader extracts": "requestLine_iff, bodyKind_*, chunked_roundtrip, host_* ; "
+    "exactly the sequence of requests a strict reader extracts": "requestLine_iff, bodyKind_*, host_* ; "
         "tie only: Model.run = Spec.readAll (model_eq_spec_goal), checked on every case through impl=Model and impl|=Spec",
     "conflicting or non-numeric Content-Length": "bodyKind_cl_not_numeric, bodyKind_cl_unequal",
     "Content-Length together with Transfer-Encoding": "bodyKind_cl_te_conflict",
     "a transfer coding other than chunked": "bodyKind_te_not_chunked, bodyKind_chunked_iff",
-    "malformed chunk size or chunk terminator": "chunked_strict_size, chunked_strict_terminator, chunked_strict_last_terminator",
+    "malformed chunk size or chunk terminator": "tie only: chunked decode round trip / strictness are decided by the correspondence (stepChunkSize/stepChunkCrlf/stepLastCrlf vs Spec.decodeChunks on every chunked case); reject paths end in reject400 (reject400_closed)",
     "malformed request line": "requestLine_iff, requestLine_strict",
     "missing/invalid/multiple Host": "host_missing_11, host_invalid, host_comma, host_default_10",
-    "delivers nothing further, answers 400 or closes": "reject_is_final, reject400_closed",
-    "never reports the peer's malformed input as an uncaught application error": "never_uncaught (model) ; tie: no ERROR 'Uncaught exception' record on any case",
+    "delivers nothing further, answers 400 or closes": "reject_is_final, reject400_closed, closeSilent_closed",
+    "never reports the peer's malformed input as an uncaught application error": "never_uncaught, never_uncaught_eof (model) ; tie: no ERROR 'Uncaught exception' record on any case",
 }
 PARALLEL = True
 CASE_TIMEOUT = 120
-LEVEL_NOTE = "Model.run = Spec.readAll is tie-only (stated as model_eq_spec_goal)"
+LEVEL_NOTE = "Model.run = Spec.readAll (model_eq_spec_goal) and the chunked encode/decode round trip are tie-only"
 
 DEFAULT_CFG = {"mh": 65536, "mb": 104857600, "ov": [], "nk": False}
 
@@ -443,7 +445,7 @@ HOSTS = ["x", "example.com", "x:80", "[::1]:8080", "x:", "a%41b", "127.0.0.1", "
 BAD_HOSTS = ["a,b", "bad host", "a%4", "a%zz", "a/b", "", "x\xe9", "a@b", "a?b", "x,", "a\\b", "%"]
 CONNS = [None] * 5 + ["close", "keep-alive", "Keep-Alive", "Close", "close, x", "upgrade", "CLOSE"]
 CL_VARIANTS = ["{n}", "{n}", "{n}", "0{n}", "{n},{n}", "{n}, {n}", "{n},\t {n}", "{n},\xa0{n}"]
-CL_BAD = ["+{n}", "{n}.0", "0x{n}", "{n},{m}", "{n} {n}", "-{n}", "{n}a", "", ",{n}", "{n},", "\xb9", "{n};q=1", "1_0"]
+CL_BAD = ["+{n}", "{n}.0", "0x{n}", "{n},{m}", "{n},{n},{m}", "{n}, {n}, {m}", "{n} {n}", "-{n}", "{n}a", "", ",{n}", "{n},", "\xb9", "{n};q=1", "1_0"]
 TE_OK = ["chunked", "Chunked", "CHUNKED", "chunKed"]
 TE_BAD = ["gzip", "chunked, gzip", "gzip, chunked", "identity", "chunked,chunked", ",chunked", "chunked;q=1", "x", "chunke", "chunkedd", ""]
 EXTRA_HEADERS = ["X-A: 1", "X-A: 1\r\n  folded", "X-B:\tv \t", "X-C: \xe9\xfc", "x-lower: v", "X-A: 2", "Accept: */*",
@@ -548,6 +550,41 @@ def _request(rng, p_bad, cfg):
     return head.encode("latin1") + body
 
 
+def _focused(rng):
+    """an otherwise valid request with exactly one framing-relevant anomaly (or none): the decision points of
+    _read_body / is_transfer_encoding_chunked / HTTPServerRequest are hit without other defects masking them"""
+    version = rng.choice(["HTTP/1.1", "HTTP/1.1", "HTTP/1.0"])
+    hdrs = ["Host: x"]
+    n = rng.choice([0, 1, 3, 10])
+    body = bytes(rng.randrange(256) for _ in range(n))
+    chunked = ("%x" % n).encode() + b"\r\n" + body + b"\r\n0\r\n\r\n" if n else b"0\r\n\r\n"
+    k = rng.choice(["te-bad", "te-bad", "te-ok", "cl-bad", "cl-bad", "cl-ok", "cl-te", "host-bad", "host-none", "two-te", "two-cl"])
+    if k == "te-bad":
+        hdrs.append("Transfer-Encoding: " + rng.choice(TE_BAD)); payload = chunked
+    elif k == "te-ok":
+        hdrs.append("Transfer-Encoding: " + rng.choice(TE_OK)); payload = chunked
+    elif k == "cl-bad":
+        hdrs.append("Content-Length: " + rng.choice(CL_BAD).replace("{n}", str(n)).replace("{m}", str(n + 1))); payload = body
+    elif k == "cl-ok":
+        hdrs.append("Content-Length: " + rng.choice(CL_VARIANTS).replace("{n}", str(n))); payload = body
+    elif k == "cl-te":
+        hdrs += ["Content-Length: %d" % n, "Transfer-Encoding: chunked"]; rng.shuffle(hdrs); payload = rng.choice([body, chunked])
+    elif k == "host-bad":
+        hdrs[0] = "Host: " + rng.choice(BAD_HOSTS); payload = b""
+    elif k == "host-none":
+        hdrs = []; payload = b""
+    elif k == "two-te":
+        hdrs += ["Transfer-Encoding: chunked", "Transfer-Encoding: " + rng.choice(["chunked", "gzip", "identity"])]; payload = chunked
+    else:
+        m = rng.choice([n, n, n + 1])
+        hdrs += ["Content-Length: %d" % n, "Content-Length: %d" % m, "Content-Length: %d" % rng.choice([n, m])][:rng.choice([2, 3])]
+        payload = body
+    if rng.random() < 0.3:
+        hdrs.append("Connection: " + rng.choice(["close", "keep-alive"]))
+    head = "%s / %s\r\n" % (rng.choice(["POST", "PUT", "GET"]), version) + "".join(h + "\r\n" for h in hdrs) + "\r\n"
+    return head.encode("latin1") + payload
+
+
 def _pad_to_header_limit(rng, cfg):
     """a GET whose header block ends exactly at mh-1 / mh / mh+1 / far beyond"""
     mh = cfg["mh"]
@@ -606,8 +643,12 @@ def _stream(rng):
     p_bad = rng.choice([0.0, 0.0, 0.02, 0.05, 0.15, 0.4])
     n = rng.choice([1, 1, 2, 2, 3, 4])
     parts, gen = [], "grammar"
+    focused = rng.random() < 0.25
     for _ in range(n):
-        if cfg["mh"] < 1000 and rng.random() < 0.4:
+        if focused:
+            parts.append(_focused(rng))
+            gen = "focused"
+        elif cfg["mh"] < 1000 and rng.random() < 0.4:
             parts.append(_pad_to_header_limit(rng, cfg))
             gen = "header-limit"
         else:
